@@ -25,46 +25,47 @@ func init() {
 			var obs []Obligation
 			caps := fc.findCalls(capFn)
 			sleeps := fc.findCalls(slpFn)
-			if len(caps) != 1 || len(sleeps) == 0 {
+			if len(sleeps) == 0 {
 				return []Obligation{mkOb(c, "SLEEP.cap", u, "cap lookup", fd, Violated, "BuiltinSleep must call sleepCap exactly once and sleepContext at least once", true)}
 			}
-			as, _ := fc.Node(caps[0].Loc).(*ast.AssignStmt)
-			var limitObj, lerrObj types.Object
-			if as != nil && len(as.Lhs) == 2 {
-				limitObj, lerrObj = identObj(info, as.Lhs[0]), identObj(info, as.Lhs[1])
+			// capGuard: in the function of graph g, whose sleepCap call binds (limit, lerr), the
+			// edges that entail `limit <= 0 or d <= limit` for the duration object d — or nil
+			// with a reason when the cap is not looked up exactly once / its error not returned
+			type capFacts struct {
+				pass  []cfgEdge
+				capAt Loc
+				call  *ast.CallExpr
+				errOK bool
+				why   string
 			}
-			if limitObj == nil || lerrObj == nil {
-				return []Obligation{mkOb(c, "SLEEP.cap", u, "cap lookup", caps[0].Call, Violated, "sleepCap's results are not both bound", true)}
-			}
-			// error of sleepCap returned
-			okErr := false
-			for _, e := range fc.nilEdges(lerrObj, false) {
-				if fc.edgeReturns(e, lerrObj) {
-					okErr = true
+			capGuard := func(g *FCFG, dObj types.Object) capFacts {
+				ginfo := g.Info
+				cs := g.findCalls(capFn)
+				if len(cs) != 1 {
+					return capFacts{why: "sleepCap is not called exactly once"}
 				}
-			}
-			if okErr {
-				obs = append(obs, mkOb(c, "SLEEP.cap", u, "cap error returned", caps[0].Call, Proved, "an unusable :max (or one above the ceiling) is returned as the error", true))
-			} else {
-				obs = append(obs, mkOb(c, "SLEEP.cap", u, "cap error returned", caps[0].Call, Violated, "sleepCap's error is not returned", true))
-			}
-			for _, s := range sleeps {
-				if len(s.Call.Args) != 2 {
-					continue
+				as, _ := g.Node(cs[0].Loc).(*ast.AssignStmt)
+				var limitObj, lerrObj types.Object
+				if as != nil && len(as.Lhs) == 2 {
+					limitObj, lerrObj = identObj(ginfo, as.Lhs[0]), identObj(ginfo, as.Lhs[1])
 				}
-				dObj := identObj(info, s.Call.Args[1])
-				if dObj == nil {
-					obs = append(obs, mkOb(c, "SLEEP.cap", u, "slept duration", s.Call, Undecided, "the duration passed to sleepContext is not a variable", false))
-					continue
+				if limitObj == nil || lerrObj == nil {
+					return capFacts{why: "sleepCap's results are not both bound", call: cs[0].Call}
+				}
+				out := capFacts{capAt: cs[0].Loc, call: cs[0].Call}
+				for _, e := range g.nilEdges(lerrObj, false) {
+					if g.edgeReturns(e, lerrObj) {
+						out.errOK = true
+					}
 				}
 				cls := func(e ast.Expr) (string, bool) {
-					if gt, _, ok := orderedCompare(info, e, dObj, limitObj); ok {
+					if gt, _, ok := orderedCompare(ginfo, e, dObj, limitObj); ok {
 						// name "dExceeds": true when d > limit (non-strict variants treated as exceed too)
 						return "dExceeds", !gt
 					}
 					be, ok := ast.Unparen(e).(*ast.BinaryExpr)
-					if ok && identObj(info, be.X) == limitObj {
-						if k, okc := intConst(info, be.Y); okc && k == 0 {
+					if ok && identObj(ginfo, be.X) == limitObj {
+						if k, okc := intConst(ginfo, be.Y); okc && k == 0 {
 							switch be.Op {
 							case token.GTR, token.NEQ:
 								return "limitPos", false
@@ -75,8 +76,84 @@ func init() {
 					}
 					return "", false
 				}
-				pass := fc.edgesEntailing(cls, func(v map[string]bool) bool { return !v["limitPos"] || !v["dExceeds"] })
-				if len(pass) > 0 && !fc.reachableFromAvoiding(caps[0].Loc.B, s.Loc.B, pass) && fc.Dominates(caps[0].Loc, s.Loc) {
+				out.pass = g.edgesEntailing(cls, func(v map[string]bool) bool {
+					return (v["$has:limitPos"] && !v["limitPos"]) || (v["$has:dExceeds"] && !v["dExceeds"])
+				})
+				return out
+			}
+			errReported := false
+			for _, s := range sleeps {
+				if len(s.Call.Args) != 2 {
+					continue
+				}
+				dObj := identObj(info, s.Call.Args[1])
+				if dObj == nil {
+					obs = append(obs, mkOb(c, "SLEEP.cap", u, "slept duration", s.Call, Undecided, "the duration passed to sleepContext is not a variable", false))
+					continue
+				}
+				guarded := false
+				var capCall ast.Node = fd
+				errOK := false
+				if len(caps) == 1 {
+					// the comparison is written here
+					f := capGuard(fc, dObj)
+					errOK = f.errOK
+					if f.call != nil {
+						capCall = f.call
+					}
+					guarded = len(f.pass) > 0 && !fc.reachableFromAvoiding(f.capAt.B, s.Loc.B, f.pass) && fc.Dominates(f.capAt, s.Loc)
+				} else if len(caps) == 0 {
+					// ... or in a checking helper whose nil result stands for `within the cap`
+					helperErrOK := false
+					edges := c.nilResultGuardEdgesAt(fc, func(hfc *FCFG, h *types.Func, call *ast.CallExpr) []cfgEdge {
+						po := boundParam(info, call, h, dObj)
+						if po == nil {
+							return nil
+						}
+						f := capGuard(hfc, po)
+						// inside the helper every nil return must lie behind the comparison AND after the lookup
+						if len(f.pass) == 0 || !f.errOK {
+							return nil
+						}
+						helperErrOK = true
+						capCall = call
+						return f.pass
+					})
+					// the helper's error is returned by BuiltinSleep: the nil edges found are of a
+					// local whose non-nil edge returns it
+					if helperErrOK {
+						for _, b := range fc.G.Blocks {
+							cond := fc.CondOf(b)
+							if !fc.Live(b) || cond == nil {
+								continue
+							}
+							ast.Inspect(cond, func(n ast.Node) bool {
+								if id, ok := n.(*ast.Ident); ok {
+									if o, ok := info.Uses[id].(*types.Var); ok {
+										if ce, _, nd := definingCall(info, fd.Body, o); ce != nil && nd == 1 && ce == capCall {
+											for _, e := range fc.nilEdges(o, false) {
+												if fc.edgeReturns(e, o) {
+													errOK = true
+												}
+											}
+										}
+									}
+								}
+								return true
+							})
+						}
+					}
+					guarded = len(edges) > 0 && !fc.reachableAvoiding(s.Loc.B, edges)
+				}
+				if !errReported {
+					errReported = true
+					if errOK {
+						obs = append(obs, mkOb(c, "SLEEP.cap", u, "cap error returned", capCall, Proved, "an unusable :max (or one above the ceiling) is returned as the error", true))
+					} else {
+						obs = append(obs, mkOb(c, "SLEEP.cap", u, "cap error returned", capCall, Violated, "sleepCap's error is not returned", true))
+					}
+				}
+				if guarded {
 					obs = append(obs, mkOb(c, "SLEEP.cap", u, "sleep guarded by cap", s.Call, Proved, "every path from sleepCap to sleepContext(d) passes an edge entailing limit<=0 or d<=limit, for the same d", true))
 				} else {
 					obs = append(obs, mkOb(c, "SLEEP.cap", u, "sleep guarded by cap", s.Call, Violated, "sleepContext(d) is reachable without d having been compared against the cap", true))
@@ -86,7 +163,6 @@ func init() {
 			if cfn, cfd, cpkg := c.LookupFunc("lisp/lisplib/libtime.sleepCap"); cfn != nil {
 				cu := FuncUnit{cfn, cfd, cpkg}
 				cinfo := cpkg.TypesInfo
-				cfc := c.cfgOf(cu, nil)
 				ceilM := c.LookupMethod("lisp.Runtime.MaxSleepCeiling")
 				var ceilObj types.Object
 				ast.Inspect(cfd.Body, func(n ast.Node) bool {
@@ -99,51 +175,88 @@ func init() {
 				})
 				// every `return X, nil` where X is not the zero constant must be reached only via edges entailing X <= ceiling or ceiling <= 0
 				ord := &ordinal{}
-				for _, b := range cfc.G.Blocks {
-					if !cfc.Live(b) {
-						continue
-					}
-					for _, n := range b.Nodes {
-						rs, ok := n.(*ast.ReturnStmt)
-						if !ok || len(rs.Results) != 2 || !isNilIdent(cinfo, rs.Results[1]) {
+				var capReturns func(cu FuncUnit, ceilObj types.Object, nres, depth int)
+				capReturns = func(cu FuncUnit, ceilObj types.Object, nres, depth int) {
+					cinfo := cu.Pkg.TypesInfo
+					cfc := c.cfgOf(cu, nil)
+					for _, b := range cfc.G.Blocks {
+						if !cfc.Live(b) {
 							continue
 						}
-						xObj := identObj(cinfo, rs.Results[0])
-						construct := ord.next("return " + types.ExprString(rs.Results[0]) + ", nil")
-						if xObj == nil || ceilObj == nil {
-							obs = append(obs, mkOb(c, "SLEEP.cap", cu, construct, rs, Undecided, "cap result is not a variable / ceiling not bound", false))
-							continue
-						}
-						cls := func(e ast.Expr) (string, bool) {
-							if gt, _, ok := orderedCompare(cinfo, e, xObj, ceilObj); ok {
-								return "xExceeds", !gt
+						for _, n := range b.Nodes {
+							rs, ok := n.(*ast.ReturnStmt)
+							if !ok || len(rs.Results) != nres || (nres == 2 && !isNilIdent(cinfo, rs.Results[1])) {
+								continue
 							}
-							be, ok := ast.Unparen(e).(*ast.BinaryExpr)
-							if ok && identObj(cinfo, be.X) == ceilObj {
-								if k, okc := intConst(cinfo, be.Y); okc && k == 0 {
-									switch be.Op {
-									case token.GTR, token.NEQ:
-										return "ceilPos", false
-									case token.LEQ, token.EQL:
-										return "ceilPos", true
+							// the cap is computed by a helper of the package from the ceiling
+							if ce, ok := ast.Unparen(rs.Results[0]).(*ast.CallExpr); ok && depth < 2 && ceilObj != nil {
+								if h := originOf(Callee(cinfo, ce)); h != nil && h.Pkg() == cfn.Pkg() && h.Type().(*types.Signature).Results().Len() == 1 {
+									if hd := c.declOf[h]; hd != nil && hd.Body != nil {
+										if po := boundParam(cinfo, ce, h, ceilObj); po != nil {
+											capReturns(FuncUnit{h, hd, c.pkgOf[hd]}, po, 1, depth+1)
+											continue
+										}
 									}
 								}
 							}
-							return "", false
-						}
-						pass := cfc.edgesEntailing(cls, func(v map[string]bool) bool { return !v["ceilPos"] || !v["xExceeds"] })
-						// an assignment `x = ceiling` on the path also establishes x <= ceiling
-						assignBlocks := cfc.blocksWith(func(n ast.Node) bool {
-							as, ok := n.(*ast.AssignStmt)
-							return ok && len(as.Lhs) == 1 && len(as.Rhs) == 1 && identObj(cinfo, as.Lhs[0]) == xObj && identObj(cinfo, as.Rhs[0]) == ceilObj
-						})
-						if len(pass) > 0 && !cfc.reachableAvoidingBlocks(b, pass, assignBlocks) {
-							obs = append(obs, mkOb(c, "SLEEP.cap", cu, construct, rs, Proved, "the cap returned has passed an edge entailing ceiling<=0 or cap<=ceiling", true))
-						} else {
-							obs = append(obs, mkOb(c, "SLEEP.cap", cu, construct, rs, Violated, "a cap can be returned without having been compared against the host ceiling", true))
+							xObj := identObjOrSel(cinfo, rs.Results[0])
+							construct := ord.next("return " + types.ExprString(rs.Results[0]) + ", nil")
+							if xObj == nil || ceilObj == nil {
+								obs = append(obs, mkOb(c, "SLEEP.cap", cu, construct, rs, Undecided, "cap result is not a variable / ceiling not bound", false))
+								continue
+							}
+							if xObj == ceilObj {
+								obs = append(obs, mkOb(c, "SLEEP.cap", cu, construct, rs, Proved, "the cap returned is the ceiling itself", true))
+								continue
+							}
+							cls := func(e ast.Expr) (string, bool) {
+								if be, ok := ast.Unparen(e).(*ast.BinaryExpr); ok {
+									x, y := identObjOrSel(cinfo, be.X), identObjOrSel(cinfo, be.Y)
+									if (x == xObj && y == ceilObj) || (x == ceilObj && y == xObj) {
+										gt := false
+										switch be.Op {
+										case token.GTR, token.GEQ:
+											gt = true
+										case token.LSS, token.LEQ:
+										default:
+											return "", false
+										}
+										if x == ceilObj {
+											gt = !gt
+										}
+										return "xExceeds", !gt
+									}
+								}
+								be, ok := ast.Unparen(e).(*ast.BinaryExpr)
+								if ok && identObj(cinfo, be.X) == ceilObj {
+									if k, okc := intConst(cinfo, be.Y); okc && k == 0 {
+										switch be.Op {
+										case token.GTR, token.NEQ:
+											return "ceilPos", false
+										case token.LEQ, token.EQL:
+											return "ceilPos", true
+										}
+									}
+								}
+								return "", false
+							}
+							pass := cfc.edgesEntailing(cls, func(v map[string]bool) bool {
+								return (v["$has:ceilPos"] && !v["ceilPos"]) || (v["$has:xExceeds"] && !v["xExceeds"])
+							})
+							// an assignment `x = ceiling` on the path also establishes x <= ceiling
+							assignBlocks := cfc.blocksWith(func(n ast.Node) bool {
+								as, ok := n.(*ast.AssignStmt)
+								return ok && len(as.Lhs) == 1 && len(as.Rhs) == 1 && identObj(cinfo, as.Lhs[0]) == xObj && identObj(cinfo, as.Rhs[0]) == ceilObj
+							})
+							if len(pass) > 0 && !cfc.reachableAvoidingBlocks(b, pass, assignBlocks) {
+								obs = append(obs, mkOb(c, "SLEEP.cap", cu, construct, rs, Proved, "the cap returned has passed an edge entailing ceiling<=0 or cap<=ceiling", true))
+							} else {
+								obs = append(obs, mkOb(c, "SLEEP.cap", cu, construct, rs, Violated, "a cap can be returned without having been compared against the host ceiling", true))
+							}
 						}
 					}
 				}
+				capReturns(cu, ceilObj, 2, 0)
 			}
 			return obs
 		}})
@@ -191,7 +304,7 @@ func init() {
 				}
 				return "", false
 			}
-			unbounded := fc.edgesEntailing(cls, func(v map[string]bool) bool { return v["doneNil"] && !v["hasDeadline"] })
+			unbounded := fc.edgesEntailing(cls, func(v map[string]bool) bool { return v["doneNil"] && v["$has:hasDeadline"] && !v["hasDeadline"] })
 			n := 0
 			for _, b := range fc.G.Blocks {
 				if !fc.Live(b) {
@@ -285,19 +398,42 @@ func init() {
 					}
 					return true
 				})
+				// "remaining": the local bound to time.Until(deadline), or that call written in place
+				isRem := func(e ast.Expr) bool {
+					if remObj != nil && identObj(info, e) == remObj {
+						return true
+					}
+					ce, ok := ast.Unparen(e).(*ast.CallExpr)
+					return ok && stdFuncCalled(info, ce, "time", "Until") && len(ce.Args) == 1 && identObj(info, ce.Args[0]) == dlObj
+				}
+				haveRem := remObj != nil
 				cls2 := func(e ast.Expr) (string, bool) {
 					if identObj(info, e) == hasDlObj {
 						return "hasDeadline", false
 					}
-					if remObj != nil {
-						if gt, _, ok := orderedCompare(info, e, dObj, remObj); ok {
+					if be, ok := ast.Unparen(e).(*ast.BinaryExpr); ok {
+						dLeft := identObj(info, be.X) == dObj && isRem(be.Y)
+						dRight := identObj(info, be.Y) == dObj && isRem(be.X)
+						if dLeft || dRight {
+							gt := false
+							switch be.Op {
+							case token.GTR, token.GEQ:
+								gt = true
+							case token.LSS, token.LEQ:
+							default:
+								return "", false
+							}
+							if dRight {
+								gt = !gt
+							}
+							haveRem = true
 							return "dExceedsRemaining", !gt
 						}
 					}
 					return "", false
 				}
-				pass := fc.edgesEntailing(cls2, func(v map[string]bool) bool { return !v["hasDeadline"] || !v["dExceedsRemaining"] })
-				if remObj != nil && len(pass) > 0 && !fc.reachableAvoiding(tloc.B, pass) {
+				pass := fc.edgesEntailing(cls2, func(v map[string]bool) bool { return (v["$has:hasDeadline"] && !v["hasDeadline"]) || (v["$has:dExceedsRemaining"] && !v["dExceedsRemaining"]) })
+				if haveRem && len(pass) > 0 && !fc.reachableAvoiding(tloc.B, pass) {
 					obs = append(obs, mkOb(c, "SLEEP.context", u, "deadline refusal", timerCall, Proved, "the timer is created only on edges entailing no deadline or d <= time.Until(deadline)", true))
 				} else {
 					obs = append(obs, mkOb(c, "SLEEP.context", u, "deadline refusal", timerCall, Violated, "a sleep that cannot finish before the deadline is started instead of refused", true))
